@@ -263,7 +263,10 @@ func genFindCase(r *Rng, ver string, kind string) (toks, bool) {
 		fns = []int{0, 1, 5, 7, 9}
 	}
 	fn := fns[r.Intn(len(fns))]
-	n := r.Pick([]int{-1, 0, 1, 2, 3, 5, 50})
+	n := r.Pick([]int{-1, 0, 1, 2, 3, 5, 50, MaxInt, MaxInt - 1, 1 << 60, MinInt})
+	if n > 1000 && (fn == 5 || fn == 6 || fn >= 7 || !finite) {
+		n = 3 // huge counts only make sense for the N-variants on finite sequences
+	}
 	if !finite {
 		// the search must find what it is asked for inside the first 300 digits
 		text := append([]int{}, raw...)
